@@ -11,6 +11,8 @@ func Run(t *testing.T, p *plan.Plan, keepLog int) *Result {
 	switch p.Family {
 	case "router":
 		return RunRouter(t, p, keepLog)
+	case "xport":
+		return RunXport(t, p, keepLog)
 	}
 	return &Result{Seed: p.Seed, Family: p.Family, Focus: p.Focus, Note: "unknown family"}
 }
